@@ -87,6 +87,25 @@ def mk_eq(a, b):
         return TRUE if a == b else FALSE
     if a[0] in ("agg", "enumc", "tuple") and b[0] in ("agg", "enumc", "tuple") and is_ground(a) and is_ground(b):
         return TRUE if a == b else FALSE
+    # Option == Option with both variants known: Some(x) == Some(y) is x == y (through references), Some == None is false
+    def _opt(v):
+        if v[0] == "agg" and v[1] == "std::option::Option" and v[2] == "Some" and len(v[4]) == 1:
+            return ("Some", v[4][0])
+        if v[0] == "enumc" and v[1] == "std::option::Option" and v[2] == "None":
+            return ("None", None)
+        return None
+    oa, ob = _opt(a), _opt(b)
+    if oa and ob:
+        if oa[0] != ob[0]:
+            return FALSE
+        if oa[0] == "None":
+            return TRUE
+        x, y = oa[1], ob[1]
+        while x[0] == "ref":
+            x = x[1]
+        while y[0] == "ref":
+            y = y[1]
+        return mk_eq(x, y)
     if _key(a) > _key(b):
         a, b = b, a
     # x == true -> x ; x == false -> !x
